@@ -400,12 +400,15 @@ package syncer
 //@   properties C04
 //@   ghost var ended mathint = 0
 //@   ghost var ctxDone mathint = 0
-//@   modifies heap, ended, ctxDone
+//@   modifies heap, ended, ctxDone, consumed
 //@   chan rdbPipe: nonnil: recv != nil
 //@   set ended = ite(recvok && !recv.Done && recv.Err == nil, ended, 1) after recv rdbPipe
 //@   set ctxDone = 1 after recv ctx.Done()
 //@   ensures no_silent_stop: result == nil ==> ended == 1
-//@   assert at call Store: a_snapshot_is_complete_only_at_the_size_the_source_announced: nsize > 0 ==> readBytes.v == nsize
+//   consumed  the number of snapshot bytes the parser had consumed when it was last asked (readBytes.Load())
+//@   ghost var consumed mathint = 0 - 1
+//@   set consumed = result after call Load
+//@   assert at call Store: a_snapshot_is_complete_only_at_the_size_the_source_announced: nsize > 0 ==> consumed == nsize
 //@   replay syncer_zeroCrcEarlyEnd
 //@   loop 1:
 //@     invariant progress: ended == 0
